@@ -81,7 +81,7 @@ def run(case, lang):
         results.append(res)
         if res is not None:
             tracked.append(res)
-    return {"id": case["id"], "lang": lang, "ct": case["ct"], "steps": steps}
+    return {"id": case["id"], "lang": lang, "ct": case["ct"], "steps": steps, "ev": False}
 
 
 def main():
